@@ -3,7 +3,8 @@
    task goroutine || reconnect loop || faults, every label sequence); proofs in
    RetryInv_SubsMap.v (tables as finite maps, per-topic replay algebra), RetryInv_SubsExec.v (what one
    task does to the invariant), RetryInv_Subs.v (system invariant I-subs, convergence),
-   RetryInv_SubsResub.v (re-subscription packets), RetryInv_SubsEx.v (examples, counterexample).
+   RetryInv_SubsResub.v (re-subscription packets), RetryInv_SubsResubContent.v (content of a
+   Resubscribe, client view = net effect of executed calls), RetryInv_SubsEx.v (examples, counterexample).
 
    Hypotheses: [wf_labels] (ghost uids positive, increasing in submission order: only used by the last
    theorem, where uid 0 marks a re-subscription); [closing_only fp]: every transport fault closes the
@@ -14,7 +15,7 @@
    Non-vacuity: [RetryInv_SubsEx.C08_example] (3 calls, lost SUBACK, dial failure, refused CONNECT,
    session lost, re-subscription, quiescent end) and [C08_resub_condition_example]. *)
 From MQ Require Import Base RetryCore RetrySys CheckRetry RetryProps.
-From MQ Require RetryInv_Subs RetryInv_SubsResub RetryInv_SubsEx.
+From MQ Require RetryInv_Subs RetryInv_SubsResub RetryInv_SubsResubContent RetryInv_SubsEx.
 
 (* "Once the retrying / reconnecting client is idle on a stable connection, the set of topic filters
    subscribed at the broker, with their requested QoS, equals the net effect of the application's
@@ -44,6 +45,26 @@ Print Assumptions C08_resub_condition.
 Theorem C08_resub_only_subscribed : C08_resub_only_subscribed_stmt.
 Proof. exact RetryInv_SubsResub.C08_resub_only_subscribed. Qed.
 Print Assumptions C08_resub_only_subscribed.
+
+(* "... the client re-subscribes what is currently subscribed and nothing that was unsubscribed", at
+   full strength, in two parts (statements defined in RetryInv_SubsResubContent.v):
+   (1) one Resubscribe task issues, in order, exactly one single-filter re-subscription (uid 0) per
+       entry of subEstablished — a prefix run directly (one SUBSCRIBE on the wire each), the rest deferred
+       IN FRONT of the old retry queue, which is kept unchanged — and nothing else;
+   (2) in every reachable not-hung state, for any fault plan, subEstablished (with the re-subscriptions
+       still deferred) is the net effect, in call order, of the executed Subscribe/Unsubscribe calls
+       (submitted calls minus those still waiting in the retry queue / task queue).
+   Hence a Resubscribe names exactly the filters the calls attempted so far leave subscribed, with the
+   latest requested QoS, and none that a later executed Unsubscribe removed
+   ([RetryInv_SubsEx.C08_resub_names_current_example], [C08_executed_example], [C08_resub_content_example]). *)
+Theorem C08_resub_content : RetryInv_SubsResubContent.C08_resub_content_stmt.
+Proof. exact RetryInv_SubsResubContent.C08_resub_content. Qed.
+Print Assumptions C08_resub_content.
+
+Theorem C08_established_is_net_effect_of_executed :
+  RetryInv_SubsResubContent.C08_established_is_net_effect_of_executed_stmt.
+Proof. exact RetryInv_SubsResubContent.C08_established_is_net_effect_of_executed. Qed.
+Print Assumptions C08_established_is_net_effect_of_executed.
 
 (* additional: the hypothesis [closing_only] of C08_converges cannot be dropped *)
 Check RetryInv_SubsEx.C08_converges_silent_refuted.
